@@ -564,6 +564,45 @@ func jsonStringCase(s string) {
 	run.Count("base64")
 }
 
+// formatCase: time.Date(...).Format(time.RFC3339) of a civil UTC time against format_rfc3339_utc;
+// a civil time the runtime would normalise (31 February, hour 24) is INVALID for the model.
+func formatCase(y, mo, d, h, mi, s int) {
+	id := run.NewID()
+	t := time.Date(y, time.Month(mo), d, h, mi, s, 0, time.UTC)
+	obs := "INVALID"
+	if t.Year() == y && int(t.Month()) == mo && t.Day() == d && t.Hour() == h && t.Minute() == mi && t.Second() == s && y >= 0 && y <= 9999 {
+		v := t.Format(time.RFC3339)
+		obs = common.Hex(v)
+		run.Count("format_valid")
+		// what Pack would write for this instant passes Pack's own validation
+		if ok, err := createdAccepted(v); !ok {
+			run.OracleFail(id, "clock-value-rejected", fmt.Sprintf("time %v formats to %q, which the created validation refuses: %v", t, v, err),
+				map[string]string{"op": "F", "civil": fmt.Sprintf("%d %d %d %d %d %d", y, mo, d, h, mi, s)})
+		}
+	} else {
+		run.Count("format_invalid")
+	}
+	run.Case(id, fmt.Sprintf("F %d %d %d %d %d %d", y, mo, d, h, mi, s), obs)
+}
+
+func genFormats() {
+	r := run.Rand.Fork()
+	for _, y := range []int{0, 1, 4, 99, 100, 400, 999, 1000, 1900, 1970, 2000, 2023, 2024, 2100, 9999} {
+		for mo := 1; mo <= 12; mo++ {
+			for _, d := range []int{1, 9, 10, 28, 29, 30, 31} {
+				formatCase(y, mo, d, 0, 0, 0)
+			}
+		}
+	}
+	for h := 0; h <= 24; h++ {
+		formatCase(2021, 7, 1, h, h*2, h*2+11)
+	}
+	n := run.Scale(3000, 100000)
+	for i := 0; i < n; i++ {
+		formatCase(pick(r, r.Intn(10000), 1969+r.Intn(100)), 1+r.Intn(12), 1+r.Intn(31), r.Intn(24), r.Intn(60), r.Intn(60))
+	}
+}
+
 func genUTF8() {
 	r := run.Rand.Fork()
 	alpha := []byte{'a', 0x7f, 0x80, 0xbf, 0xc0, 0xc2, 0xe0, 0xa0, 0x9f, 0xed, 0xef, 0xf0, 0x90, 0x8f, 0xf4, 0xf5, 0xff}
@@ -754,6 +793,10 @@ func main() {
 				utf8Case(common.UnHex(c["hex"]))
 			case "L":
 				parseCase(common.UnHex(c["hex"]))
+			case "F":
+				var y, mo, d, h, mi, s int
+				fmt.Sscanf(c["civil"], "%d %d %d %d %d %d", &y, &mo, &d, &h, &mi, &s)
+				formatCase(y, mo, d, h, mi, s)
 			}
 		}
 		run.Finish()
@@ -764,6 +807,7 @@ func main() {
 	enumFileTitles()
 	genPacks()
 	genTimes()
+	genFormats()
 	genUTF8()
 	genMediaTypes()
 	floors()
@@ -777,7 +821,7 @@ func floors() {
 		"target_registry": 50, "target_oci+exists": 50, "target_file+exists": 50, "target_registry+exists": 50, "copy_checked": 300,
 		"determinism_checked": 300, "history_second_call": 300, "registry_validating": 50, "file_named_blob": 50, "file_titled_config": 30, "file_titled_manifest": 10, "file_duplicate_name": 20, "enumerated_file_titles": 200, "prefilled": 300, "non_utf8_input": 50, "sha512_descriptor": 50, "config_empty_media_type": 10,
 		"enumerated": 1000, "enumerated_faults": 1000, "time_accepted": 1000, "parse_accepted": 1000, "parse_rejected": 1000, "time_rejected": 1000, "mediatype_valid": 1000,
-		"mediatype_invalid": 1000, "utf8_coerced": 500, "json_string": 1000, "base64": 1000, "utf8_unchanged": 100}
+		"mediatype_invalid": 1000, "utf8_coerced": 500, "json_string": 1000, "format_valid": 1000, "format_invalid": 20, "base64": 1000, "utf8_unchanged": 100}
 	var low []string
 	for k, n := range want {
 		if run.Dist[k] < n {
